@@ -374,6 +374,28 @@ pub fn c01_hist<const N: usize, const K: usize>() {
     finish(m);
 }
 
+/// Wider capacities on plain `Map<u8,u8,N>` / `Set<u8,N>` (no ledger: cheap): one solver-chosen operation from an arbitrary
+/// reachable state against the model.  Catches capacity- or length-dependent special cases beyond the token harnesses' N <= 5.
+pub fn c01u_ops<const N: usize>() {
+    let (mut m, mut md) = any_u8_map::<N>();
+    let (op, k, v) = (vf::any_u8(), vf::any_u8(), vf::any_u8());
+    vf::assume(op < 9);
+    match op {
+        0 => { vf::assume(md.n < N || md.has(k)); vf::reach(1); let e = md.insert(k, v, 0, 0); vf::check(m.insert(k, v) == e.map(|x| x.0), 401); }
+        1 => { let rejected = md.n == N && !md.has(k); let r = m.checked_insert(k, v); if rejected { vf::check(r.is_none(), 421); } else { let e = md.insert(k, v, 0, 0); vf::check(r == Some(e.map(|x| x.0)), 422); } }
+        2 => { vf::assume(md.n < N || md.has(k)); let e = md.insert_kv(k, v, 0, 0); vf::check(m.insert_key_value(k, v) == e.map(|x| (k, x.1)), 411); }
+        3 => { vf::reach(2); let e = md.remove(k); vf::check(m.remove(&k) == e.map(|x| x.1), 451); }
+        4 => { let e = md.remove(k); vf::check(m.remove_entry(&k) == e.map(|x| (k, x.1)), 461); }
+        5 => { m.retain(|kk, vv| { *vv = vv.wrapping_add(0); keep(k, *kk) }); md.retain(k); }
+        6 => { vf::check(m.get(&k).copied() == md.get(k) && m.contains_key(&k) == md.has(k) && m.get_key_value(&k).map(|p| (*p.0, *p.1)) == md.get(k).map(|x| (k, x)), 431);
+               if let Some(r) = m.get_mut(&k) { *r = v; let i = md.find(k).unwrap(); md.vals[i] = v; } }
+        7 => { vf::assume(md.n < N || md.has(k)); let had = md.has(k); let r = *m.entry(k).or_insert(v); if !had { md.insert(k, v, 0, 0); } vf::check(Some(r) == md.get(k), 1102); }
+        _ => { let c = m.clone(); vf::check(c == m, 1502); let mut t = 0; for (a, b) in c.iter() { t += 1; vf::check(md.get(*a) == Some(*b), 1501); } vf::check(t == md.n, 1501); }
+    }
+    same_u8_map(&m, &md);
+    vf::check(m.len() <= m.capacity() && m.capacity() == N && m.is_empty() == (md.n == 0), 206);
+}
+
 /// C06: every element reference handed out points inside the bytes of the container value itself
 pub fn c06_refs<const N: usize>() {
     tok::reset();
@@ -431,7 +453,9 @@ harnesses! {
     c01_clear: [0] [1] [2] [3];
     c01_drain_all: [0] [1] [2] [3];
     c01_hist: [2, 2];
+    c01u_ops: [4] [6] [8];
     @deep
+    c01u_ops: [10] [12];
     c01_hist: [2, 3] [3, 3] [3, 4];
     c06_refs: [4];
     c06_refs_set: [4];
